@@ -641,6 +641,23 @@ func init() {
 		})
 	}
 
+	// values so large that value*10^places overflows a float64: the arbitrary-precision rounding helper
+	// (makeRoundWithFactor), which the ordinary magnitudes above never reach; such floats are whole numbers,
+	// so rounding to 10 decimal places leaves them unchanged
+	toHuge := func(x int) float64 { return (float64(x)*1.5 - 1.75) * 1e300 }
+	for _, fo := range []struct {
+		name string
+		mk   func() func(ro.Observable[float64]) ro.Observable[float64]
+	}{
+		{"FloorWithPrecision(10)/huge", func() func(ro.Observable[float64]) ro.Observable[float64] { return ro.FloorWithPrecision(10) }},
+		{"CeilWithPrecision(10)/huge", func() func(ro.Observable[float64]) ro.Observable[float64] { return ro.CeilWithPrecision(10) }},
+	} {
+		fo := fo
+		bEntry(fo.name, 0, mmapApprox(func(x, i int) float64 { return toHuge(x) }), func(b *B) ro.Observable[float64] {
+			return fo.mk()(ro.Map(toHuge)(b.S(0)))
+		})
+	}
+
 	// ------------------------------------------------------------ combining with constants
 	opEntry("StartWith", PassThrough, m1(func(vs []int, end rec.Kind) ([]string, Term) {
 		return append(ri([]int{8, 9}), ri(vs)...), fwd(end)
